@@ -384,7 +384,7 @@ Proof.
   - intros b b' Hw H. cbn [push] in H. eapply push_none_wf; eassumption.
   - intros b b' Hw H. cbn [push] in H. eapply IHv; eassumption.
   - intros b b' Hw H. cbn [push] in H. eapply push_none_wf; eassumption.
-  - leaf.
+  - intros b b' Hw H. cbn [push] in H. eapply push_none_wf; eassumption.
   - intros b b' Hw H. cbn [push] in H. eapply IHv; eassumption.
   - intros b b' Hw H0. destruct b; cbn [push] in H0; try discriminate;
       first [leaf_prim Hw H0 | leaf_utf8 Hw H0 | (eapply push_list_wf; eassumption)].
